@@ -333,6 +333,16 @@ def check (c):
     worst = max (worst, d / 1e-12)
     if d > 1e-12:
         bad ('medium-object-reused', 'medium-object-reused', 'a Medium object that was the outer medium of a circular ground with radials, used again as the outer medium of a linear ground: pattern differs by %.3g of the maximum from fresh objects (boundary now %r)' % (d, getattr (mB.media [0], 'boundary', None)), measured = d, allowed = 1e-12)
+    # ---- (h4) the kind of boundary is that of the first medium: 'circular' named on a later Medium object only does not
+    # turn a linear ground into a circular one
+    mL = gen.build (sA, route = 'api', media_objs = [MM.Medium (g ['eps'], g ['sig'], 0.0, coord = g ['c1'], boundary = 'linear'), MM.Medium (g ['eps2'], g ['sig2'], g ['h2'], boundary = 'circular')])
+    observe.solve (mL)
+    pL = 10 ** (pattern (mL) [..., 2] / 10)
+    mon ['boundary-of-first-medium'] = 1
+    d = float (np.abs (pL - pF).max () / pF.max ())
+    worst = max (worst, d / 1e-12)
+    if d > 1e-12:
+        bad ('boundary-of-first-medium', 'boundary-taken-from-later-medium', 'first medium linear, second Medium object made with boundary circular: pattern differs by %.3g of the maximum from the linear ground (boundary now %r)' % (d, getattr (mL.media [0], 'boundary', None)), measured = d, allowed = 1e-12)
     # ---- (h3) the first medium of a model with two media handed, afterwards, to a second model as its only medium: the
     # first model is what it was (what a model computes does not depend on which other models were made after it)
     firstC = MM.Medium (g ['eps'], g ['sig'], 0.0, coord = g ['c1'], boundary = g ['boundary'])
